@@ -25,6 +25,8 @@ import (
 	"encoding/json"
 	"fmt"
 	"hash/fnv"
+	"io"
+	"log/slog"
 	"math/rand"
 	"os"
 	"sort"
@@ -493,6 +495,7 @@ func main() {
 		fatal("usage: l2lock replay|random|interleave|stress <in.json> <out.ndjson>")
 	}
 	initKeyNames(8)
+	slog.SetDefault(slog.New(slog.NewTextHandler(io.Discard, nil))) // the adapter logs every connection
 	switch os.Args[1] {
 	case "replay":
 		var progs []*Program
